@@ -48,7 +48,8 @@ Proof.
 Qed.
 
 Lemma toy_eqv_cong a b :
-  toy_eqv a b <-> tp_type a = tp_type b /\ forall k, cong (rw (tp_samples a) k) (rw (tp_samples b) k).
+  toy_eqv a b <-> (tp_type a = tp_type b /\ tp_comments a = tp_comments b)
+                  /\ forall k, cong (rw (tp_samples a) k) (rw (tp_samples b) k).
 Proof.
   unfold toy_eqv. split; intros [T W]; (split; [exact T|]); intros k; specialize (W k);
     rewrite !tp_weight_rw in *; apply wrap_eq_iff; exact W.
@@ -110,13 +111,19 @@ Proof.
   - tauto.
 Qed.
 
+Definition all_comments (ps : list tprof) : list string := List.concat (map tp_comments ps).
+Lemma all_comments_app a b : all_comments (a ++ b) = (all_comments a ++ all_comments b)%list.
+Proof. unfold all_comments. rewrite map_app, concat_app. reflexivity. Qed.
+
 Lemma toy_combine_some ps m : toy_combine ps = Some m ->
-  toy_compat ps = true /\ tp_type m = head_type ps /\ forall k, cong (rw (tp_samples m) k) (rw (all_samples ps) k).
+  toy_compat ps = true /\ (tp_type m = head_type ps /\ tp_comments m = all_comments ps)
+  /\ forall k, cong (rw (tp_samples m) k) (rw (all_samples ps) k).
 Proof.
   unfold toy_combine. destruct (toy_compat ps) eqn:C; [|discriminate].
   destruct ps as [|p [|q r]]; intros H; inversion H; subst; clear H.
-  - split; [reflexivity|]. split; [reflexivity|]. intros k. unfold all_samples. simpl. rewrite app_nil_r. apply cong_refl.
-  - split; [reflexivity|]. split; [reflexivity|]. intros k. simpl. apply rw_merge.
+  - split; [reflexivity|]. split; [split; [reflexivity|unfold all_comments; simpl; rewrite app_nil_r; reflexivity]|].
+    intros k. unfold all_samples. simpl. rewrite app_nil_r. apply cong_refl.
+  - split; [reflexivity|]. split; [split; reflexivity|]. intros k. simpl. apply rw_merge.
 Qed.
 
 Lemma toy_compat_spec ps : toy_compat ps = true <->
@@ -155,18 +162,18 @@ Qed.
 
 (* ---------------- the laws ---------------- *)
 Lemma toy_eqv_refl a : toy_eqv a a.
-Proof. split; reflexivity. Qed.
+Proof. split; [split|]; reflexivity. Qed.
 Lemma toy_eqv_sym a b : toy_eqv a b -> toy_eqv b a.
-Proof. intros [T W]. split; [congruence|]. intros k. symmetry. apply W. Qed.
+Proof. intros [[T C] W]. split; [split; congruence|]. intros k. symmetry. apply W. Qed.
 Lemma toy_eqv_trans a b c : toy_eqv a b -> toy_eqv b c -> toy_eqv a c.
-Proof. intros [T W] [T' W']. split; [congruence|]. intros k. rewrite W. apply W'. Qed.
+Proof. intros [[T C] W] [[T' C'] W']. split; [split; congruence|]. intros k. rewrite W. apply W'. Qed.
 
 Lemma toy_pair_proper a a' b : toy_eqv a a' -> opt_eqv tprof toy_eqv (toy_combine [a; b]) (toy_combine [a'; b]).
 Proof.
-  intros E. apply toy_eqv_cong in E as [T W].
+  intros E. apply toy_eqv_cong in E as [[T C] W].
   unfold toy_combine, toy_compat. rewrite <- T.
   destruct (negb (String.eqb (tp_type a) "") && forallb (fun q => String.eqb (tp_type q) (tp_type a)) [b]); [|exact I].
-  simpl. apply toy_eqv_cong. simpl. split; [reflexivity|]. intros k.
+  simpl. apply toy_eqv_cong. simpl. split; [split; [reflexivity|rewrite C; reflexivity]|]. intros k.
   eapply cong_trans; [apply rw_merge|]. eapply cong_trans; [|apply cong_sym, rw_merge].
   unfold all_samples. simpl. rewrite !app_nil_r, !rw_app. apply cong_add; [apply W|apply cong_refl].
 Qed.
@@ -179,14 +186,15 @@ Proof.
   intros NA NB. pose proof (toy_compat_app A B NA NB) as CA.
   destruct (toy_combine A) as [a|] eqn:EA.
   - destruct (toy_combine B) as [b|] eqn:EB.
-    + apply toy_combine_some in EA as (CmA & TA & WA). apply toy_combine_some in EB as (CmB & TB & WB).
+    + apply toy_combine_some in EA as (CmA & (TA & KA) & WA). apply toy_combine_some in EB as (CmB & (TB & KB) & WB).
       destruct (toy_combine [a; b]) as [m|] eqn:EM.
-      * apply toy_combine_some in EM as (CmM & TM & WM).
+      * apply toy_combine_some in EM as (CmM & (TM & KM) & WM).
         assert (HT : head_type B = head_type A).
         { apply toy_compat_spec in CmM as (_ & _ & F). rewrite <- TA, <- TB. simpl in F. apply F. right. now left. }
         destruct (toy_combine (A ++ B)) as [m'|] eqn:EAB.
-        -- apply toy_combine_some in EAB as (_ & TAB & WAB). apply toy_eqv_cong. split.
-           ++ rewrite TM, TAB, (head_type_app A B NA). simpl. exact TA.
+        -- apply toy_combine_some in EAB as (_ & (TAB & KAB) & WAB). apply toy_eqv_cong. split.
+           ++ split; [rewrite TM, TAB, (head_type_app A B NA); simpl; exact TA|].
+              rewrite KM, KAB, all_comments_app. unfold all_comments at 1. simpl. rewrite app_nil_r, KA, KB. reflexivity.
            ++ intros k. eapply cong_trans; [apply WM|]. eapply cong_trans; [|apply cong_sym, WAB].
               rewrite all_samples_app, rw_app. unfold all_samples at 1. simpl. rewrite app_nil_r, rw_app.
               apply cong_add; [apply WA|apply WB].
@@ -216,23 +224,25 @@ Proof.
   rewrite IH; [reflexivity|]. intros X. apply H. now right.
 Qed.
 
-Lemma toy_eqvb_spec a b : toy_eqvb a b = true <-> toy_eqv a b.
-Proof.
-  unfold toy_eqvb, toy_eqv. rewrite andb_true_iff, String.eqb_eq, forallb_forall. split.
-  - intros [T W]. split; [exact T|]. intros k.
-    destruct (in_dec string_dec k (map fst (tp_samples a) ++ map fst (tp_samples b))) as [I|N].
-    + apply Z.eqb_eq. apply W. exact I.
-    + rewrite !tp_weight_rw, !rw_absent; [reflexivity| |]; intros X; apply N; apply in_or_app; tauto.
-  - intros [T W]. split; [exact T|]. intros k _. apply Z.eqb_eq. apply W.
-Qed.
-
-(* ---------------- the boolean specification checker is sound ---------------- *)
 Lemma list_eqb_eq a b : list_eqb String.eqb a b = true -> a = b.
 Proof.
   revert b. induction a as [|x a IH]; intros [|y b]; simpl; try discriminate; [reflexivity|].
   intros H. apply andb_true_iff in H as [E H]. apply String.eqb_eq in E. subst. f_equal. apply IH. exact H.
 Qed.
+Lemma list_eqb_refl a : list_eqb String.eqb a a = true.
+Proof. induction a as [|x a IH]; simpl; [reflexivity|]. rewrite String.eqb_refl. exact IH. Qed.
 
+Lemma toy_eqvb_spec a b : toy_eqvb a b = true <-> toy_eqv a b.
+Proof.
+  unfold toy_eqvb, toy_eqv. rewrite !andb_true_iff, String.eqb_eq, forallb_forall. split.
+  - intros [[T C] W]. apply list_eqb_eq in C. split; [split; assumption|]. intros k.
+    destruct (in_dec string_dec k (map fst (tp_samples a) ++ map fst (tp_samples b))) as [I|N].
+    + apply Z.eqb_eq. apply W. exact I.
+    + rewrite !tp_weight_rw, !rw_absent; [reflexivity| |]; intros X; apply N; apply in_or_app; tauto.
+  - intros [[T C] W]. split; [split; [exact T|rewrite C; apply list_eqb_refl]|]. intros k _. apply Z.eqb_eq. apply W.
+Qed.
+
+(* ---------------- the boolean specification checker is sound ---------------- *)
 Lemma status_eqb_eq a b : status_eqb a b = true -> a = b.
 Proof. destruct a, b; simpl; try discriminate; reflexivity. Qed.
 
